@@ -30,7 +30,8 @@ VARIABLES tid, pos
 tvars == <<tid, pos, arr, grids, last, depth>>
 
 Range(s) == { s[i] : i \in 1..Len(s) }
-KN(ds)   == [i \in 1..Len(ds) |-> <<ds[i].k, ds[i].n>>]
+\* kinds in order, with the lengths of the non-grid dims (a grid dim's length is GridDimsConsistent's business)
+KN(ds)   == [i \in 1..Len(ds) |-> <<ds[i].k, IF ds[i].k \in GridKinds THEN 0 ELSE ds[i].n>>]
 NameOf(x) == IF x \in {"v", "w", "none"} THEN x ELSE "free"
 
 \* the logged result as an abstract array (bookkeeping fields taken from the expectation e)
@@ -45,28 +46,25 @@ Ended(ln, o, a) == \/ ln.out = "xr_refused" /\ o.op \notin OwnOps
                    \/ ln.out = "refused" /\ IsFree(o, a)
 
 (* ---- the clauses of one step -------------------------------------------- *)
-Clauses(ln, a, G) ==
-  LET o    == Op(ln.op, ln.d)
-      free == IsFree(o, a)
-      e    == Eff(o, a, G).a
-      L    == Logged(ln, a, e)
-      val  == ln.out = "value"
-  IN
+\* (operator arguments are evaluated once by TLC, LET definitions at every use: hence the two levels)
+ClausesOf(ln, a, G, o, free, e, L, val) ==
   [ Raises   |-> ln.out # "raised" /\ (ln.out = "refused" => free) /\ (ln.out = "xr_refused" => o.op \notin OwnOps),
     IsUx     |-> val => IsUxArr(L),
-    SameGrid |-> val => IF free THEN L.grid \in {a.grid, NewHandle(G)} ELSE L.grid = e.grid,
+    SameGrid |-> (val /\ IsUxArr(L)) => IF free THEN L.grid \in {a.grid, NewHandle(G)} ELSE L.grid = e.grid,
     DimsEffect |-> val => IF o.op \in FreeOps
                           THEN /\ Len(L.dims) = Len(a.dims)
                                /\ \A i \in 1..Len(a.dims) : /\ L.dims[i].k = a.dims[i].k
                                                             /\ i \in LeadIdx(a) => L.dims[i].n = a.dims[i].n
                           ELSE free \/ KN(L.dims) = KN(e.dims),
-    GridDimsConsistent |-> val => ConsistentArr(L) /\ OneGridDim(L),
-    GridDimsNumeric |-> val => \A i \in 1..Len(ln.dims) :
+    GridDimsConsistent |-> (val /\ IsUxArr(L)) => ConsistentArr(L) /\ OneGridDim(L),
+    GridDimsNumeric |-> (val /\ IsUxArr(L)) => \A i \in 1..Len(ln.dims) :
                                  ln.dims[i].k \in GridKinds => ln.grid # 0 /\ ln.dims[i].size = ln.g.cnt[ln.dims[i].k],
     DeepCopyIndependent |-> (val /\ o.op \in CopyOps) => a.grid \in Range(ln.g.eq) /\ Range(ln.g.share) = {},
     Name     |-> (val /\ ~free) => e.name = "free" \/ NameOf(ln.name) = e.name,
     ValuesAsXarray |-> ln.val # "diff"
   ]
+Clauses2(ln, a, G, o, e) == ClausesOf(ln, a, G, o, IsFree(o, a), e, Logged(ln, a, e), ln.out = "value")
+Clauses(ln, a, G) == Clauses2(ln, a, G, Op(ln.op, ln.d), Eff(Op(ln.op, ln.d), a, G).a)
 IsEvent(ln) == ln.op \in AllOps /\ ln.out \in {"value", "raised", "refused", "xr_refused"}
 Failed(ln, a, G) == IF ~IsEvent(ln) THEN {"IsEvent"}
                     ELSE IF ~Pre(Op(ln.op, ln.d), a, G) THEN {"Enabled"}
@@ -80,9 +78,9 @@ Dummy == Start(<<>>, "n_face")
 TInit == /\ tid \in { -b : b \in 1..NBlocks } /\ pos = 0
          /\ arr = Dummy /\ grids = Grid0 /\ last = NoOp /\ depth = 0
 
+InBlock(b) == (((b - 1) * Block) + 1)..Min(b * Block, Len(Traces))
 Pick == /\ tid < 0
-        /\ \E k \in 1..Len(Traces) :
-             /\ (k - 1) \div Block = (-tid) - 1
+        /\ \E k \in InBlock(-tid) :
              /\ InitClauses(Traces[k])
              /\ tid' = k /\ pos' = 0
              /\ arr' = Traces[k].init.arr /\ grids' = Traces[k].init.grids
@@ -107,9 +105,8 @@ TSpec == TInit /\ [][TNext]_tvars
 
 \* evaluated in every state: report the traces that stop short
 Report ==
-  /\ tid < 0 => \A k \in 1..Len(Traces) :
-                  ((k - 1) \div Block = (-tid) - 1 /\ ~InitClauses(Traces[k]))
-                     => PrintT(<<"R", Traces[k].id, 0, {"Init"}>>)
+  /\ tid < 0 => \A k \in InBlock(-tid) :
+                  ~InitClauses(Traces[k]) => PrintT(<<"R", Traces[k].id, 0, {"Init"}>>)
   /\ (tid > 0 /\ pos < Len(Traces[tid].steps)) =>
         LET ln == Traces[tid].steps[pos + 1]
             f  == Failed(ln, arr, grids)
